@@ -1,4 +1,4 @@
-CONSTANTS W = 2  BYTE = 1  F1 = 2  F2 = 2  B = 2  BLK = 2  PRO = 1  SR = 2  MaxWords = 7
+CONSTANTS W = 2  BYTE = 1  F1 = 2  F2 = 2  B = 2  BLK = 2  PRO = 1  SR = 2  MaxWords = 6
 SPECIFICATION Spec
 INVARIANT Correct
 INVARIANT Bounded
